@@ -1,16 +1,85 @@
 /-
   C01 — Value round-trip for every built-in codec type.  Property theorems only.
-  (placeholder: a concrete evaluation; the general theorems are being added)
+
+  `encodeT` / `decodeT` (Types.lean) are the models of the built-in `Encode` / `Decode` impls,
+  one `Ty` constructor per codec shape (docs/TYPES_PROTOCOL.md maps ≈100 concrete Rust
+  instantiations onto them); the correspondence check ties them to the real impls.
+
+  Side conditions of `roundtrip`, all decidable:
+  * `t.WF`        — the type-level constants fit their Rust types (`Tagged<N, _>`: `N < 2^64`; the
+                    `u32` variant index of `[index, payload]` enums).  True of every Rust type.
+  * `t.NoOptOpt`  — no `Option` directly inside an `Option` anywhere in the type: the property's
+                    stated exclusion.  `optopt_lossy` shows the exclusion is necessary.
+  * `bs.length < 2^64` — the encoding fits in the address space (it bounds every length that is
+                    written into a head).  True of every `Vec<u8>`.
+  The decoder does not normalise anything the encoder accepts (`Duration` nanos are `< 10^9`
+  already, floats are read back bit for bit), so `canon` of the design is the identity and the
+  decoded value is `v` itself.  Unordered collections are modelled as the list of elements in
+  iteration order: reading back the same list is in particular multiset equality.
 -/
-import Minicbor.Types
+import Minicbor.Lemmas.TypesRoundtrip
 
 namespace Minicbor.C01
 
-/-- a concrete nested value round-trips (a test, not the general claim). -/
-theorem roundtrip_example :
-    (encodeT (.seq (.opt (.int .u8))) (.list [.some (.int 1), .none, .some (.int 200)])).map
-      (fun bs => match decodeT (.seq (.opt (.int .u8))) (bs ++ [0x01]) with
-        | .ok _ r => r | _ => []) = some [0x01] := by
-  decide
+/-- **C01.**  For every built-in codec type `t` and every value `v` the encoder accepts: decoding
+    the produced bytes — followed by anything — as the same type succeeds, returns `v`
+    (floats bitwise: `Val.float` carries the bit pattern, NaN payloads included) and stops exactly
+    where the encoding ends. -/
+theorem roundtrip (t : Ty) (v : Val) (bs rest : Bytes)
+    (hwf : t.WF = true) (hno : t.NoOptOpt = true)
+    (henc : encodeT t v = some bs) (hlen : bs.length < 2 ^ 64) :
+    decodeT t (bs ++ rest) = .ok v rest :=
+  roundtrip_all.1 t v bs henc hwf hno (by simpa [U64] using hlen) rest
+
+/-- decoding the encoding alone consumes all of it. -/
+theorem roundtrip_exact (t : Ty) (v : Val) (bs : Bytes)
+    (hwf : t.WF = true) (hno : t.NoOptOpt = true)
+    (henc : encodeT t v = some bs) (hlen : bs.length < 2 ^ 64) :
+    decodeT t bs = .ok v [] := by
+  simpa using roundtrip t v bs [] hwf hno henc hlen
+
+/-- **position**: the decoder consumes exactly the bytes that were produced
+    (`Decoder::position()` afterwards = input length − remaining = `bs.length`). -/
+theorem roundtrip_position (t : Ty) (v : Val) (bs rest : Bytes)
+    (hwf : t.WF = true) (hno : t.NoOptOpt = true)
+    (henc : encodeT t v = some bs) (hlen : bs.length < 2 ^ 64) :
+    ∃ r, decodeT t (bs ++ rest) = .ok v r ∧ (bs ++ rest).length - r.length = bs.length :=
+  ⟨rest, roundtrip t v bs rest hwf hno henc hlen, by simp⟩
+
+/-- the sequence / tuple / map loops, for use by other properties: `n` encoded elements are read
+    back by the count-driven loop. -/
+theorem roundtrip_list (t : Ty) (vs : List Val) (bs rest : Bytes)
+    (hwf : t.WF = true) (hno : t.NoOptOpt = true)
+    (henc : encodeList t vs = some bs) (hlen : bs.length < 2 ^ 64) :
+    Dec.repeatN (decodeT t) vs.length (bs ++ rest) = .ok vs rest :=
+  roundtrip_all.2.2.2 t vs bs henc hwf hno (by simpa [U64] using hlen) rest
+
+/-- the exclusion is necessary: `Some(None) : Option<Option<u8>>` is written as `f6` and read back
+    as `None`. -/
+theorem optopt_lossy :
+    encodeT (.opt (.opt (.int .u8))) (.some .none) = some [0xf6] ∧
+    decodeT (.opt (.opt (.int .u8))) [0xf6] = .ok .none [] ∧
+    (Ty.opt (.opt (.int .u8))).NoOptOpt = false :=
+  ⟨by decide, rfl, by decide⟩
+
+/-- … for every payload type: `Some(None) : Option<Option<T>>` always reads back as `None`. -/
+theorem optopt_lossy_general (t : Ty) (rest : Bytes) :
+    encodeT (.opt (.opt t)) (.some .none) = some Enc.null ∧
+    decodeT (.opt (.opt t)) (Enc.null ++ rest) = .ok .none rest := by
+  refine ⟨by simp [encodeT], ?_⟩
+  rw [decodeT]
+  simp [Dec.bind_run, datatype_null, skip_null rest]
+
+/-- the value space is not artificially narrowed: a nested
+    `BTreeMap<String, Vec<Option<(u8, Tagged<5, &str>)>>>` value satisfies every hypothesis. -/
+example :
+    let t : Ty := .map .str (.seq (.opt (.tup [.int .u8, .tagged 5 .str])))
+    let v : Val := .map [.str [0x61], .list [.some (.list [.int 200, .tagged (.str [0x62, 0x63])]), .none],
+                         .str [0xc3, 0xa9], .list []]
+    t.WF = true ∧ t.NoOptOpt = true ∧
+      ∃ bs, encodeT t v = some bs ∧ bs.length < 2 ^ 64 ∧ decodeT t (bs ++ [0xff]) = .ok v [0xff] := by
+  refine ⟨by decide, by decide, [0xa2, 0x61, 0x61, 0x82, 0x82, 0x18, 0xc8, 0xc5, 0x62, 0x62, 0x63, 0xf6,
+    0x62, 0xc3, 0xa9, 0x80], by decide, by decide, ?_⟩
+  exact roundtrip _ _ _ _ (by decide) (by decide) (by decide) (by decide)
 
 end Minicbor.C01
